@@ -62,6 +62,11 @@ func traverse(context Context, matchingNode *CandidateNode, operation *Operation
 
 	case AliasNode:
 		log.Debug("its an alias!")
+		if matchingNode.Alias == nil {
+			// an alias created with `alias = "name"` is not linked to its anchor
+			log.Debug("alias *%v is not linked to an anchor, nothing to traverse", matchingNode.Value)
+			return list.New(), nil
+		}
 		matchingNode = matchingNode.Alias
 		return traverse(context, matchingNode, operation)
 	default:
@@ -136,6 +141,10 @@ func traverseArrayIndices(context Context, matchingNode *CandidateNode, indicesT
 	}
 
 	if matchingNode.Kind == AliasNode {
+		if matchingNode.Alias == nil {
+			log.Debug("alias *%v is not linked to an anchor, nothing to traverse", matchingNode.Value)
+			return list.New(), nil
+		}
 		matchingNode = matchingNode.Alias
 		return traverseArrayIndices(context, matchingNode, indicesToTraverse, prefs)
 	} else if matchingNode.Kind == SequenceNode {
@@ -294,6 +303,10 @@ func doTraverseMap(newMatches *orderedmap.OrderedMap, node *CandidateNode, wante
 func traverseMergeAnchor(newMatches *orderedmap.OrderedMap, value *CandidateNode, wantedKey string, prefs traversePreferences, splat bool) error {
 	switch value.Kind {
 	case AliasNode:
+		if value.Alias == nil {
+			log.Debug("merge alias *%v is not linked to an anchor, nothing to merge", value.Value)
+			return nil
+		}
 		if value.Alias.Kind != MappingNode {
 			return fmt.Errorf("can only use merge anchors with maps (!!map), but got %v", value.Alias.Tag)
 		}
